@@ -1045,7 +1045,35 @@ func (c *Ctx) plainDocument() {
 		}
 	}
 	_ = nSelf
-	c.Check(len(why) == 0, "c12.plain-document", "PlainDocument", c.P.Pos(f.Pos()), "self only when plain; the copy excludes `<-` and lazy CTEs", strings.Join(uniq(why), "; "))
+	// the copy goes over every entry: the loop that stores into the copy is left only when the range is exhausted — an engine
+	// entry is skipped, it does not end the copy (own probe of round 11: `break` for `continue`; the columns that follow the
+	// entry in map order are lost, a different set on every run)
+	for _, nx := range mapRangeNexts(f) {
+		hdr := nx.Block()
+		stores := false
+		allInstrs(f, func(b *ssa.BasicBlock, in ssa.Instruction) {
+			if _, isMU := in.(*ssa.MapUpdate); isMU && inNaturalLoop(hdr, b) {
+				stores = true
+			}
+		})
+		if !stores {
+			continue
+		}
+		for _, b := range f.Blocks {
+			if b == hdr || !inNaturalLoop(hdr, b) {
+				continue
+			}
+			for _, sc := range b.Succs {
+				if sc != hdr && !inNaturalLoop(hdr, sc) {
+					if _, isRet := sc.Instrs[len(sc.Instrs)-1].(*ssa.Return); isRet && len(sc.Instrs) > 0 {
+						// leaving by a return is judged by the path rules above
+					}
+					why = append(why, "the loop that fills the copy is left before the document is exhausted (at "+c.P.Pos(b.Instrs[len(b.Instrs)-1].Pos())+"): the entries after a skipped one are not copied")
+				}
+			}
+		}
+	}
+	c.Check(len(why) == 0, "c12.plain-document", "PlainDocument", c.P.Pos(f.Pos()), "self only when plain; the copy excludes `<-` and lazy CTEs and goes over every entry", strings.Join(uniq(why), "; "))
 }
 
 // the memoised CTE must stay a CTE entry (c07.cte-memo): otherwise `SELECT * FROM dual` changes between two evaluations
